@@ -84,8 +84,8 @@ func genC12(t *rapid.T) Script {
 
 type effCfg struct {
 	initial, maxInt, maxElapsed float64
-	mult, jitter               float64
-	maxRetries                 int
+	mult, jitter                float64
+	maxRetries                  int
 }
 
 func effective(b BackoffCfg) effCfg {
@@ -124,7 +124,6 @@ func (e effCfg) grow(b base) base {
 
 func exact(x float64) base { return base{x, x} }
 
-
 func checkC12(t *testing.T, sc Script) *stats.Verdict {
 	v := &stats.Verdict{Size: len(sc.Attempts)}
 	e := effective(sc.Backoff)
@@ -150,7 +149,9 @@ func checkC12(t *testing.T, sc Script) *stats.Verdict {
 		}
 	}
 	tr := run(t, sc, nil)
-	desc := func() string { return fmt.Sprintf("backoff %+v (effective %+v)\nscript %+v\ntrace:\n%s", sc.Backoff, e, sc.Attempts, tr) }
+	desc := func() string {
+		return fmt.Sprintf("backoff %+v (effective %+v)\nscript %+v\ntrace:\n%s", sc.Backoff, e, sc.Attempts, tr)
+	}
 	if tr.panicked != nil {
 		return v.Failf("panic", "panic: %v\n%s", tr.panicked, desc())
 	}
